@@ -226,8 +226,9 @@ def run(ctx):
     from permuta import BivincularPatt, CovincularPatt, VincularPatt
 
     rng = D.subrng(ctx, "c04")
-    ctx.run("C04.perm_syms", D.perms_upto(7 if quick else 8), chunk=300,
-            rule="all perms up to length 7 (8 thorough); rotate(k) for k in [-9, 9]; non-trivial = orbit has > 1 element")
+    long_perms = [D.random_perm(rng, n) for n in range(9, 41) for _ in range(3 if quick else 20)]
+    ctx.run("C04.perm_syms", D.perms_upto(7 if quick else 8) + long_perms, chunk=300,
+            rule="all perms up to length 7 (8 thorough) + seeded ones of every length 9-40; rotate(k) for k in [-9, 9]; non-trivial = orbit has > 1 element")
     ctx.add_sample("C04.perm_syms", Perm((0, 4, 1, 3, 2)))
     meshes = list(D.all_mesh(0)) + list(D.all_mesh(1)) + list(D.all_mesh(2))
     m3 = list(D.sampled_mesh(rng, 3, 40 if quick else 600, boundary=True))
